@@ -415,6 +415,9 @@ func runC09(c *fw.Ctx) {
 	scs := []sc{
 		{"self-deref", "(def a (atom 1))", []string{"(swap! a (fn (n) (+ n @a)))"}, nil},
 		{"self-deref-concurrent", "(def a (atom 1))", []string{"(swap! a (fn (n) (+ 1 (- @a n) n)))", "(swap! a (fn (n) (+ 1 (- @a n) n)))", "@a", "(reset! a 0)"}, nil},
+		{"self-deref-contended", "(def a (atom 1))", []string{"(swap! a (fn (n) (+ 1 (- @a n) n)))", "(swap! a (fn (n) (+ 1 (- @a n) n)))", "(swap! a (fn (n) (+ 1 (- @a n) n)))", "(swap! a (fn (n) (+ 1 (- @a n) n)))",
+			"(swap! a (fn (n) (+ 1 (- @a n) n)))", "(swap! a (fn (n) (+ 1 (- @a n) n)))", "(swap! a (fn (n) (do (pr-str a) (+ n 1))))", "(swap! a (fn (n) (do (pr-str a) (+ n 1))))",
+			"(swap! a inc)", "(swap! a inc)", "(swap! a inc)", "(swap! a inc)", "(swap! a inc)", "(swap! a inc)", "(reset! a @a)", "@a"}, nil},
 		{"self-print", "(def a (atom 1))", []string{"(swap! a (fn (n) (do (pr-str a) (str a) (+ n 1))))", "(swap! a inc)"}, nil},
 		{"deref-other", "(do (def a (atom 1)) (def b (atom 2)))", []string{"(swap! a (fn (n) (+ n @b)))", "(swap! b (fn (n) (+ n @a)))"}, nil},
 		{"abba", "(do (def a (atom 0)) (def b (atom 0)))", []string{"(swap! a (fn (n) (do (swap! b inc) (+ n 1))))", "(swap! b (fn (n) (do (swap! a inc) (+ n 1))))"}, nil},
